@@ -5,6 +5,7 @@ by kernel evaluation, instantiated at the generated tables. Hand-written: the ge
 -/
 import PhQVerif.Core.Check
 import PhQVerif.Generated.Tables
+import PhQVerif.Generated.Kernels
 
 namespace PhQVerif.Chk
 open PhQVerif.Generated
@@ -41,5 +42,18 @@ default constructors of the constitutive models leave their moduli default-initi
 def C20uninit (e : Entry) : Bool := (e.kind == .modelCtor && e.nIn == 0) || checkNoUninit e
 /-- The same without the exception (quantity and unit entry points). -/
 def C20uninitStrict (e : Entry) : Bool := checkNoUninit e
+
+/-- C02: the conversion entry points of Unit.hpp agree with the composition of the kernels. -/
+def C02unit (e : Entry) : Bool :=
+  match e.enumArgs with
+  | (t, _) :: _ => (match kernelsOf e.fm t with | some k => checkUnitEntry k e | none => false)
+  | [] => false
+/-- C02: per-class entry points that take a unit. -/
+def C02class (e : Entry) : Bool := checkClassUnit classes (kernelsOf e.fm) e
+/-- C02: scalar `Convert` over all ordered pairs of units of one type. -/
+def C02pairs (fm : Fm) (tr : Nat × List (Nat × Nat × Expr × Expr)) : Bool :=
+  match kernelsOf fm tr.1 with
+  | some k => tr.2.all (checkConvertPair k fm)
+  | none => false
 
 end PhQVerif.Chk
